@@ -158,13 +158,16 @@ class CliSim(object):
             mpl.close("all")
         except Exception:
             pass
-        self.ff.close_datasets()
-        gc.collect()
+        stdout = buf.getvalue()
+        del buf
+        still = self.ff.close_datasets()
+        if still:
+            self.stats["probe:nc_handles_still_referenced"] += still
         self.stats["commands"] += 1
         self.stats["cmd_" + ("ok" if status == "ok" else "exit" if status.startswith("exit") else "exc")] += 1
         if status.startswith("exc"):
             self.stats["excclass:" + status] += 1
-        return {"status": status, "ok": status == "ok", "stdout": buf.getvalue(), "file": out_file, "fired": fired}
+        return {"status": status, "ok": status == "ok", "stdout": stdout, "file": out_file, "fired": fired}
 
     @staticmethod
     def same_output(a, b):
